@@ -322,6 +322,12 @@ func propC16(c c16Case) (v hh.Verdict) {
 	if merge3 {
 		v.Classes = append(v.Classes, "merge>=3-with-conflict")
 	}
+	for _, op := range c.Ops {
+		if op.Op == "omit" && len(op.Keys) == 0 {
+			v.Classes = append(v.Classes, "omit-removing-nothing")
+			break
+		}
+	}
 	v.Nontrivial = laterAdd || merge3
 	return v
 }
@@ -378,7 +384,11 @@ func genC16(rt *rapid.T, maxOps int) c16Case {
 			if len(ks) == 0 {
 				continue
 			}
-			sel := rapid.SliceOfNDistinct(rapid.SampledFrom(ks), 1, len(ks), rapid.ID[string]).Draw(rt, "keys")
+			minSel := 1
+			if kind == "omit" && rapid.IntRange(0, 4).Draw(rt, "noop") == 0 {
+				minSel = 0 // an Omit that removes nothing (no arguments, or only false entries) still returns a schema of its own
+			}
+			sel := rapid.SliceOfNDistinct(rapid.SampledFrom(ks), minSel, max(minSel, len(ks)*minSel), rapid.ID[string]).Draw(rt, "keys")
 			op := c16Op{Op: kind, Src: src, Keys: sel, AsMap: rapid.Bool().Draw(rt, "asmap")}
 			if op.AsMap {
 				if len(sel) > 1 && rapid.Bool().Draw(rt, "mixed") {
